@@ -53,6 +53,7 @@ func runC10(t *simrt.Tape, o Opts) Outcome {
 			enableRandomFaults(w, t, []string{"ms.err", "ms.falsedup", "ms.race", "kms.err", "aead.err", "alloc.err"}, h.base.Expire, h.base.Revoke)
 			w.Faults.Kinds["alloc.err"] = true
 			w.Faults.Kinds["aead.err"] = true
+			w.Faults.Kinds["ctx.cancel"] = t.Choose(2, "ctx.cancel") == 1
 		}
 		checked := 0
 		sources := map[string]bool{}
